@@ -94,14 +94,16 @@ fn structure(a: &Automaton, d: &AutDump) -> Value {
             edges.push(e);
         }
         let finals: Vec<usize> = a.final_states().map(|s| s.id() + 1).collect();
-        // accepts(w) called on whole words (indices into the dump's representatives): every word of length <= 2 over
-        // up to 12 representatives, and of length 3 over three of them
+        // accepts(w) called on whole words (indices into the dump's representatives): every word of length 1, every
+        // word of length 2 over four evenly spread representatives, every word of length 3 over the first and the last
         let nr = d.reps.len();
-        let some: Vec<usize> = if nr <= 12 { (0..nr).collect() } else { (0..12).map(|i| i * (nr - 1) / 11).collect() };
-        let three: Vec<usize> = vec![0, nr / 2, nr - 1];
+        let some: Vec<usize> = if nr <= 4 { (0..nr).collect() } else { (0..4).map(|i| i * (nr - 1) / 3).collect() };
+        let three: Vec<usize> = vec![0, nr - 1];
         let mut words: Vec<Vec<usize>> = vec![vec![]];
-        for &i in &some {
+        for i in 0..nr {
             words.push(vec![i]);
+        }
+        for &i in &some {
             for &j in &some {
                 words.push(vec![i, j]);
             }
